@@ -267,6 +267,8 @@ def run(ctx: core.Ctx):
             ctx.fail(u["kernel"], u["input"], dict(first=u["first"], second=u["second"]), "every output element is written (repeated calls on fresh buffers agree)")
     ctx.samples.append(dict(level="F", groups=groups, env="NUMBA_BOUNDSCHECK=1"))
 
+    from .. import strided
+    strided.probe(ctx, "a kernel given a non-contiguous view must not read the cells between / beside the view's elements (memory outside its argument)")
     # ---- whole-cube kernels: repeated calls on the same in-contract cube agree with each other and with one call per image row
     # (a scratch array shared between rows / iterations, or an element left unwritten, shows as a difference)
     from hdc.algo.ops.autocorr import autocorr_tyx
